@@ -42,6 +42,7 @@ from pyttb.pyttb_utils import (
     to_memory_order,
     tt_dimscheck,
     tt_ind2sub,
+    tt_index_to_int,
     tt_intersect_rows,
     tt_irenumber,
     tt_ismember_rows,
@@ -2100,6 +2101,7 @@ class sptensor:
         [[5]
          [3]]
         """
+        item = tt_index_to_int(item)
         # TODO IndexError for value outside of indices
         # TODO Key error if item not in container
         # *** CASE 1: Rectangular Subtensor ***
@@ -2290,6 +2292,7 @@ class sptensor:
         However, it is okay to do
         `S[1,1:10,1:10] = ttb.sptenrand((1,10,10),nonzeros=5).squeeze()`.
         """
+        key = tt_index_to_int(key)
         # TODO IndexError for value outside of indices
         # TODO Key error if item not in container
         # If empty sptensor and assignment is empty list or empty nparray
@@ -2422,7 +2425,7 @@ class sptensor:
         newshape = []
         for n, dim in enumerate(self.shape):
             smax = max(newsubs[:, n] + 1)
-            newshape.append(max(dim, smax))
+            newshape.append(int(max(dim, smax)))
         self.shape = tuple(newshape)
 
     def _set_subtensor(self, key, value):  # noqa: PLR0912, PLR0915
@@ -2457,7 +2460,7 @@ class sptensor:
                     else:
                         newsz.append(max([self.shape[n], max(key_n) + 1]))
                     m = m + 1
-            self.shape = tuple(newsz)
+            self.shape = tuple(int(sz) for sz in newsz)
 
             # Expand subs array if there are new modes, i.e., if the order
             # has increased.
@@ -2528,7 +2531,7 @@ class sptensor:
                 newsz.append(max(key[n]) + 1)
             else:
                 newsz.append(key[n] + 1)
-        self.shape = tuple(newsz)
+        self.shape = tuple(int(sz) for sz in newsz)
 
         # Expand subs array if there are new modes, i.e. if the order has increased
         if self.subs.size > 0 and len(self.shape) > self.subs.shape[1]:
